@@ -225,6 +225,17 @@ fn strategy() -> BoxedStrategy<Case> {
             for (i, q) in rc.requests.iter_mut().enumerate() {
                 marketing_uri(q, k.wrapping_add(i as u16));
             }
+            // in a third of the cases one rule gets a header filter whose value only exists after substitution: a variable
+            // that instantiates to the empty string leaves white space at the edges, which no literal rule value can carry
+            // through a (hypothetical) normalisation at rule load
+            if k % 3 == 0 && !rc.rules.is_empty() {
+                let i = (k as usize / 3) % rc.rules.len();
+                let r = &mut rc.rules[i];
+                r.variables.push(serde_json::json!({"name": "hv", "type": {"request_header": {"name": "X-Not-Sent", "default": ""}}}));
+                let mut hf = r.header_filters.take().unwrap_or_default();
+                hf.push(crate::spec::HeaderFilterSpec { action: "add".into(), header: "X-Var".into(), value: "@hv tail\t@hv".into(), id: Some(format!("hfv-{}", r.id)), target_hash: None });
+                r.header_filters = Some(hf);
+            }
             Case::Router(rc)
         }),
         1 => c05::case_strategy(6).prop_map(Case::Fold),
@@ -235,7 +246,7 @@ fn strategy() -> BoxedStrategy<Case> {
 pub fn run(ctx: &Ctx) -> Report {
     let mut rep = Report::new(
         "C06",
-        "case = actions produced by the library from generated routers+requests (C01 pools, full action shapes) and from C05 rule lists; requests with headers, v4/v6 addresses, nanosecond instants, skipped marketing parameters, sampling override; \
+        "case = actions produced by the library from generated routers+requests (C01 pools, full action shapes) and from C05 rule lists; requests with headers, v4/v6 addresses, nanosecond instants, skipped marketing parameters, sampling override; in a third of the router cases a header filter whose value gets white space at its edges by substitution of an empty variable; \
          oracle = ser(de(ser(a))) == ser(a), observations (status, filtered headers incl. rule ids, body-filter output under 3 content types, log decision for both defaults, applied ids along the proxy order) of de(ser(a)) == those of a for every probe code, \
          match(router, de(ser(q))) == match(router, q) (also after re-normalising), ser(de(ser(q))) == ser(q), and the four redirectionio_*_json_(de)serialize entry points return exactly serde's strings; \
          non-trivial = an action with >=1 header filter, >=1 body filter and a status update; distinct by case hash",
